@@ -3,7 +3,6 @@ package cronmc
 import (
 	"encoding/json"
 	"fmt"
-	"sort"
 	"strings"
 	"time"
 
@@ -27,20 +26,23 @@ type LifeScenario struct {
 	Ticks     []int    `json:"ticks"` // tick menu in milliseconds
 	HorizonS  int      `json:"horizonS"`
 	Lag       int      `json:"lag"`
-	Static    bool     `json:"static"` // a second, never-changing JobConfig "s" shares the scheduler
+	Static    bool     `json:"static"`          // a second, never-changing JobConfig "s" shares the scheduler
+	Names     []string `json:"names,omitempty"` // life-cycled JobConfigs (default: a)
+}
+
+type lifeJC struct {
+	Delivered string `json:"delivered"` // JSON of the delivered schedule spec ("" = absent)
+	ChangedAt int64  `json:"changedAt"` // ms offset when the last schedule-relevant change was delivered
+	Dirty     bool   `json:"dirty"`     // a change was delivered since the last tick
+	CursorMs  int64  `json:"cursorMs"`  // reference cursor
+	Known     bool   `json:"known"`     // reference considers it scheduled (delivered, enabled cron)
 }
 
 type lifeMem struct {
-	Events int    `json:"events"`
-	Used   string `json:"used"`
-	// reference state of JobConfig "a" as delivered to the controller
-	Delivered string  `json:"delivered"` // JSON of the delivered schedule spec ("" = absent)
-	ChangedAt int64   `json:"changedAt"` // ms offset when the last schedule-relevant change was delivered
-	Dirty     bool    `json:"dirty"`     // a change was delivered since the last tick
-	CursorMs  int64   `json:"cursorMs"`  // reference cursor of "a"
-	Known     bool    `json:"known"`     // reference considers "a" scheduled (delivered, enabled cron)
-	CursorS   int64   `json:"cursorS"`   // reference cursor of static "s"
-	Emitted   []int64 `json:"-"`
+	Events  int                `json:"events"`
+	Used    string             `json:"used"`
+	JC      map[string]*lifeJC `json:"jc"`
+	CursorS int64              `json:"cursorS"` // reference cursor of static "s"
 }
 
 type lifeWorld struct {
@@ -59,10 +61,19 @@ func init() {
 	})
 }
 
+func (s LifeScenario) names() []string {
+	if len(s.Names) == 0 {
+		return []string{"a"}
+	}
+	return s.Names
+}
+
 func newLifeWorld(s LifeScenario) *lifeWorld {
 	p := Pop{Name: s.Name, K: 5}
 	if s.Initial {
-		p.JCs = append(p.JCs, JC{Name: "a", Exprs: []string{s.E1}})
+		for _, n := range s.names() {
+			p.JCs = append(p.JCs, JC{Name: n, Exprs: []string{s.E1}})
+		}
 	}
 	if s.Static {
 		p.JCs = append(p.JCs, JC{Name: "s", Exprs: []string{"*/4 * * * * * *"}})
@@ -73,11 +84,14 @@ func newLifeWorld(s LifeScenario) *lifeWorld {
 		panic(w.InitErr)
 	}
 	w.Budget = mc.Budget{Lag: s.Lag}
-	w.mem.CursorMs = 0
-	w.mem.CursorS = 0
-	if s.Initial {
-		w.mem.Delivered = w.deliveredSpec()
-		w.mem.Known = true
+	w.mem.JC = map[string]*lifeJC{}
+	for _, n := range s.names() {
+		st := &lifeJC{}
+		if s.Initial {
+			st.Delivered = w.deliveredSpec(n)
+			st.Known = true
+		}
+		w.mem.JC[n] = st
 	}
 	w.EnvEnabled = w.envEnabled
 	w.EnvApply = w.envApply
@@ -91,10 +105,10 @@ func newLifeWorld(s LifeScenario) *lifeWorld {
 
 func (w *lifeWorld) IsSystem(a string) bool { return strings.HasPrefix(a, "deliver:") }
 
-func (w *lifeWorld) jc() *execution.JobConfig { return w.API.JobConfig("default/a") }
+func (w *lifeWorld) jc(name string) *execution.JobConfig { return w.API.JobConfig("default/" + name) }
 
-func (w *lifeWorld) cached() *execution.JobConfig {
-	o, ok, _ := w.Ctx.Set.JobConfigs.GetIndexer().GetByKey("default/a")
+func (w *lifeWorld) cached(name string) *execution.JobConfig {
+	o, ok, _ := w.Ctx.Set.JobConfigs.GetIndexer().GetByKey("default/" + name)
 	if !ok {
 		return nil
 	}
@@ -102,8 +116,8 @@ func (w *lifeWorld) cached() *execution.JobConfig {
 }
 
 // deliveredSpec is the schedule-relevant part of the cached JobConfig.
-func (w *lifeWorld) deliveredSpec() string {
-	c := w.cached()
+func (w *lifeWorld) deliveredSpec(name string) string {
+	c := w.cached(name)
 	if c == nil {
 		return ""
 	}
@@ -126,31 +140,34 @@ func (w *lifeWorld) envEnabled() []string {
 	s := w.scn
 	nowS := int(w.Now().Sub(sim.Epoch).Seconds())
 	if w.mem.Events < s.MaxEvents {
-		jc := w.jc()
-		for _, ev := range s.Events {
-			ok := false
-			switch ev {
-			case "create":
-				ok = jc == nil && !strings.Contains(w.mem.Used, "create")
-			case "recreate":
-				ok = jc == nil && strings.Contains(w.mem.Used, "delete")
-			case "delete":
-				ok = jc != nil
-			case "setexpr":
-				ok = jc != nil && jc.Spec.Schedule != nil && jc.Spec.Schedule.Cron != nil && jc.Spec.Schedule.Cron.Expression == s.E1
-			case "disable":
-				ok = jc != nil && jc.Spec.Schedule != nil && !jc.Spec.Schedule.Disabled
-			case "enable":
-				ok = jc != nil && jc.Spec.Schedule != nil && jc.Spec.Schedule.Disabled
-			case "notbefore":
-				ok = jc != nil && jc.Spec.Schedule != nil && jc.Spec.Schedule.Constraints == nil
-			case "dropschedule":
-				ok = jc != nil && jc.Spec.Schedule != nil
-			case "touch":
-				ok = jc != nil && !strings.Contains(w.mem.Used, "touch")
-			}
-			if ok {
-				out = append(out, "u:"+ev)
+		for _, name := range s.names() {
+			jc := w.jc(name)
+			for _, ev := range s.Events {
+				ok := false
+				tag := ev + ":" + name
+				switch ev {
+				case "create":
+					ok = jc == nil && !strings.Contains(w.mem.Used, "create:"+name)
+				case "recreate":
+					ok = jc == nil && strings.Contains(w.mem.Used, "delete:"+name)
+				case "delete":
+					ok = jc != nil
+				case "setexpr":
+					ok = jc != nil && jc.Spec.Schedule != nil && jc.Spec.Schedule.Cron != nil && jc.Spec.Schedule.Cron.Expression == s.E1
+				case "disable":
+					ok = jc != nil && jc.Spec.Schedule != nil && !jc.Spec.Schedule.Disabled
+				case "enable":
+					ok = jc != nil && jc.Spec.Schedule != nil && jc.Spec.Schedule.Disabled
+				case "notbefore":
+					ok = jc != nil && jc.Spec.Schedule != nil && jc.Spec.Schedule.Constraints == nil
+				case "dropschedule":
+					ok = jc != nil && jc.Spec.Schedule != nil
+				case "touch":
+					ok = jc != nil && !strings.Contains(w.mem.Used, "touch:"+name)
+				}
+				if ok {
+					out = append(out, "u:"+tag)
+				}
 			}
 		}
 	}
@@ -162,8 +179,8 @@ func (w *lifeWorld) envEnabled() []string {
 	return out
 }
 
-func (w *lifeWorld) update(fn func(jc *execution.JobConfig)) {
-	jc := w.jc().DeepCopy()
+func (w *lifeWorld) update(name string, fn func(jc *execution.JobConfig)) {
+	jc := w.jc(name).DeepCopy()
 	fn(jc)
 	jc.ResourceVersion = ""
 	if _, err := w.API.Update("env", sim.JobConfigs, "", jc); err != nil {
@@ -180,37 +197,38 @@ func (w *lifeWorld) envApply(action string) {
 		return
 	}
 	w.mem.Events++
-	ev := strings.TrimPrefix(action, "u:")
-	w.mem.Used += ev + ","
+	tag := strings.TrimPrefix(action, "u:")
+	w.mem.Used += tag + ","
+	ev, name, _ := strings.Cut(tag, ":")
 	switch ev {
 	case "create", "recreate":
 		e := w.scn.E1
 		if ev == "recreate" {
 			e = w.scn.E2
 		}
-		if _, err := w.API.Create("env", sim.JobConfigs, JC{Name: "a", Exprs: []string{e}}.Object(w.T0)); err != nil {
+		if _, err := w.API.Create("env", sim.JobConfigs, JC{Name: name, Exprs: []string{e}}.Object(w.T0)); err != nil {
 			panic(err)
 		}
 	case "delete":
-		if err := w.API.Delete("env", sim.JobConfigs, "default/a", -1); err != nil {
+		if err := w.API.Delete("env", sim.JobConfigs, "default/"+name, -1); err != nil {
 			panic(err)
 		}
 	case "setexpr":
-		w.update(func(jc *execution.JobConfig) { jc.Spec.Schedule.Cron.Expression = w.scn.E2 })
+		w.update(name, func(jc *execution.JobConfig) { jc.Spec.Schedule.Cron.Expression = w.scn.E2 })
 	case "disable":
-		w.update(func(jc *execution.JobConfig) { jc.Spec.Schedule.Disabled = true })
+		w.update(name, func(jc *execution.JobConfig) { jc.Spec.Schedule.Disabled = true })
 	case "enable":
-		w.update(func(jc *execution.JobConfig) { jc.Spec.Schedule.Disabled = false })
+		w.update(name, func(jc *execution.JobConfig) { jc.Spec.Schedule.Disabled = false })
 	case "notbefore":
 		nb := JC{NotBefore: ip(int(w.Now().Sub(w.T0).Seconds()) + 7)}
-		w.update(func(jc *execution.JobConfig) {
+		w.update(name, func(jc *execution.JobConfig) {
 			jc.Spec.Schedule.Constraints = &execution.ScheduleContraints{NotBefore: at(w.T0, nb.NotBefore)}
 		})
 	case "dropschedule":
-		w.update(func(jc *execution.JobConfig) { jc.Spec.Schedule = nil })
+		w.update(name, func(jc *execution.JobConfig) { jc.Spec.Schedule = nil })
 	case "touch":
 		// A change that is not a schedule change (label): must not re-base anything.
-		w.update(func(jc *execution.JobConfig) {
+		w.update(name, func(jc *execution.JobConfig) {
 			if jc.Labels == nil {
 				jc.Labels = map[string]string{}
 			}
@@ -226,21 +244,24 @@ func (w *lifeWorld) afterStep(action string) {
 	if action != "deliver:jobconfigs" {
 		return
 	}
-	now := w.deliveredSpec()
-	if now != w.mem.Delivered {
-		w.mem.Delivered = now
-		w.mem.ChangedAt = w.Now().Sub(sim.Epoch).Milliseconds()
-		w.mem.Dirty = true
+	for _, name := range w.scn.names() {
+		st := w.mem.JC[name]
+		now := w.deliveredSpec(name)
+		if now != st.Delivered {
+			st.Delivered = now
+			st.ChangedAt = w.Now().Sub(sim.Epoch).Milliseconds()
+			st.Dirty = true
+		}
 	}
 }
 
-func (w *lifeWorld) refFor() *refJC {
-	c := w.cached()
+func (w *lifeWorld) refFor(name string) *refJC {
+	c := w.cached(name)
 	if c == nil || c.Spec.Schedule == nil || c.Spec.Schedule.Cron == nil {
 		return nil
 	}
 	s := c.Spec.Schedule
-	j := JC{Name: "a", Exprs: s.Cron.GetExpressions(), TZ: s.Cron.Timezone, Disabled: s.Disabled}
+	j := JC{Name: name, Exprs: s.Cron.GetExpressions(), TZ: s.Cron.Timezone, Disabled: s.Disabled}
 	r := newRefJC(j, w.Pop, w.T0)
 	if s.Constraints != nil {
 		if s.Constraints.NotBefore != nil {
@@ -254,9 +275,9 @@ func (w *lifeWorld) refFor() *refJC {
 }
 
 // everEmitted reports whether the current incarnation of "a" was ever requested.
-func (w *lifeWorld) everEmitted() bool {
+func (w *lifeWorld) everEmitted(name string) bool {
 	for _, e := range w.Out {
-		if e.JC == "a" && e.T.After(msTime(w.mem.ChangedAt)) {
+		if e.JC == name && e.T.After(msTime(w.mem.JC[name].ChangedAt)) {
 			return true
 		}
 	}
@@ -267,21 +288,17 @@ func msTime(ms int64) time.Time { return sim.Epoch.Add(time.Duration(ms) * time.
 
 func (w *lifeWorld) judgeTick(got []Emission) {
 	now := w.Now()
-	var a, s []time.Time
+	per := map[string][]time.Time{}
 	for _, e := range got {
 		if e.T.After(now) {
 			w.Violate("C03", "early", fmt.Sprintf("%s requested for %s before that time (now %s)", e.JC, rel(e.T), rel(now)))
 		}
-		switch e.JC {
-		case "a":
-			a = append(a, e.T)
-		case "s":
-			s = append(s, e.T)
-		}
+		per[e.JC] = append(per[e.JC], e.T)
 	}
 	w.Count("C03.tick")
-	// Static JobConfig: exact reference stream, unaffected by anything that happens to "a".
+	// Static JobConfig: exact reference stream, unaffected by anything that happens to the others.
 	if w.scn.Static {
+		s := per["s"]
 		rs := newRefJC(JC{Name: "s", Exprs: []string{"*/4 * * * * * *"}}, w.Pop, w.T0)
 		want := rs.dueIn(msTime(w.mem.CursorS), now, 100)
 		if fmt.Sprint(rels(want)) != fmt.Sprint(rels(s)) {
@@ -291,19 +308,25 @@ func (w *lifeWorld) judgeTick(got []Emission) {
 			w.mem.CursorS = want[len(want)-1].Sub(sim.Epoch).Milliseconds()
 		}
 	}
-	r := w.refFor()
-	changeT := msTime(w.mem.ChangedAt)
-	desc := fmt.Sprintf("tick at %s, delivered spec %s (changed at %s)", rel(now), w.mem.Delivered, rel(changeT))
+	for _, name := range w.scn.names() {
+		w.judgeOne(name, per[name], now)
+	}
+}
+
+func (w *lifeWorld) judgeOne(name string, a []time.Time, now time.Time) {
+	st := w.mem.JC[name]
+	r := w.refFor(name)
+	changeT := msTime(st.ChangedAt)
+	desc := fmt.Sprintf("tick at %s, %s delivered spec %s (changed at %s)", rel(now), name, st.Delivered, rel(changeT))
 	switch {
 	case r == nil || !r.enabled:
 		// Not scheduled according to what has been delivered: nothing may be requested
-		// once the change has been processed by a tick. The tick that processes the
-		// change may not request anything either (the change was delivered before it).
+		// by a tick that runs after the change was delivered.
 		if len(a) > 0 {
 			w.Violate("C03", "fired-while-unscheduled", fmt.Sprintf("%s: requested %v although the JobConfig is deleted, disabled or has no cron schedule", desc, rels(a)))
 		}
-		w.mem.Known = false
-	case w.mem.Dirty || !w.mem.Known:
+		st.Known = false
+	case st.Dirty || !st.Known:
 		// First tick after a delivered change (or after creation): only times of the
 		// new schedule after the change are allowed; times between the change and this
 		// tick may be skipped (the schedule is re-based at the tick).
@@ -317,15 +340,15 @@ func (w *lifeWorld) judgeTick(got []Emission) {
 				w.Violate("C03", "back-dated-or-off-schedule", fmt.Sprintf("%s: requested %s which is not a time of the new schedule after the change", desc, rel(t)))
 			}
 		}
-		w.mem.CursorMs = now.Sub(sim.Epoch).Milliseconds()
-		w.mem.Known = true
+		st.CursorMs = now.Sub(sim.Epoch).Milliseconds()
+		st.Known = true
 	default:
 		w.Count("C03.steady")
-		want := r.dueIn(msTime(w.mem.CursorMs), now, 1000)
+		want := r.dueIn(msTime(st.CursorMs), now, 1000)
 		if fmt.Sprint(rels(want)) != fmt.Sprint(rels(a)) {
 			monitor := "stream-after-change"
 			switch {
-			case len(a) == 0 && !w.everEmitted():
+			case len(a) == 0 && !w.everEmitted(name):
 				monitor = "never-scheduled-after-create-or-enable"
 			case len(want) == 0 && !r.notBefore.IsZero() && a[0].Before(r.notBefore):
 				monitor = "fired-before-notbefore"
@@ -333,11 +356,10 @@ func (w *lifeWorld) judgeTick(got []Emission) {
 			w.Violate("C03", monitor, fmt.Sprintf("%s: expected %v, got %v", desc, rels(want), rels(a)))
 		}
 		if len(want) > 0 {
-			w.mem.CursorMs = want[len(want)-1].Sub(sim.Epoch).Milliseconds()
+			st.CursorMs = want[len(want)-1].Sub(sim.Epoch).Milliseconds()
 		}
 	}
-	w.mem.Dirty = false
-	sort.Slice(a, func(i, j int) bool { return a[i].Before(a[j]) })
+	st.Dirty = false
 }
 
 var _ runtime.Object = (*execution.JobConfig)(nil)
@@ -382,6 +404,10 @@ func init() {
 		for _, pair := range [][]string{{"setexpr", "delete"}, {"disable", "enable"}, {"delete", "recreate"}, {"setexpr", "notbefore"}} {
 			add(LifeScenario{Name: "lag1-" + strings.Join(pair, "+"), Initial: true, E1: "*/3 * * * * * *", E2: "*/5 * * * * * *", Events: pair, MaxEvents: 2, Ticks: []int{1000, 5000}, HorizonS: 10, Lag: 1, Static: true})
 			add(LifeScenario{Name: "overdue-" + strings.Join(pair, "+"), Initial: true, E1: "*/2 * * * * * *", E2: "*/7 * * * * * *", Events: pair, MaxEvents: 2, Ticks: []int{1000, 1500, 5000}, HorizonS: 9})
+		}
+		// Two life-cycled JobConfigs: a change of one arriving together with a change of the other.
+		for _, pair := range [][]string{{"delete", "disable"}, {"delete", "setexpr"}, {"delete", "enable", "disable"}, {"setexpr", "disable"}, {"dropschedule", "setexpr"}} {
+			add(LifeScenario{Name: "two-configs-" + strings.Join(pair, "+"), Names: []string{"a", "b"}, Initial: true, E1: "*/3 * * * * * *", E2: "*/5 * * * * * *", Events: pair, MaxEvents: 2, Ticks: []int{1000, 5000}, HorizonS: 9})
 		}
 		add(LifeScenario{Name: "minute-granular", Initial: true, E1: "* * * * *", E2: "*/2 * * * *", Events: []string{"setexpr", "disable", "enable", "delete", "recreate", "notbefore"}, MaxEvents: 2, Ticks: []int{61000, 30000}, HorizonS: 200})
 		return out
